@@ -8,21 +8,43 @@ Import ListNotations.
 Open Scope R_scope.
 
 (* Exact arithmetic, any duration > 0, any dt > 0 (dividing the duration or not, larger than it
-   or not), any observables whose requested times lie in [0,1] ("Full" default only when every
-   observable has its own times): the adapter returns a grid that is strictly increasing, starts
-   at 0, ends at the duration, and whose members are exactly: the duration, the multiples i*dt
-   for 0 <= i <= floor(duration/dt), and t*duration for every requested t.  Nothing else. *)
-Theorem C21_grid_spec : forall dur dt (obs : list (option (list R))) dflt,
-  0 < dur -> 0 < dt ->
+   or not), merge tolerance 0 < tolu < 1 (the code uses 1e-12), any observables whose requested
+   times lie in [0,1] ("Full" default only when every observable has its own times).  Call
+   candidates the duration, the multiples i*dt for 0 <= i <= floor(duration/dt), and t*duration
+   for every requested t.  The adapter returns a grid g that
+   - is strictly increasing, starts at 0 and ends at the duration;
+   - has consecutive points at least tolu*duration apart (no near-zero solver step; pulser's
+     uniqueness check of the run's evaluation times cannot fail);
+   - contains only candidates (nothing else);
+   - contains, for every candidate (every multiple of dt, every requested time), a point
+     closer than tolu*duration to it. *)
+Theorem C21_grid_spec : forall tolu dur dt (obs : list (option (list R))) dflt,
+  0 < dur -> 0 < dt -> 0 < tolu < 1 ->
   (forall t, requested_by obs dflt t -> 0 <= t <= 1) ->
   (dflt = None -> Forall (fun o => o <> None) obs) ->
-  exists g, get_target_times R_arith R_floor dur dt obs dflt = Ok g /\
+  exists g, get_target_times R_arith R_floor tolu dur dt obs dflt = Ok g /\
     StronglySorted Rlt g /\ hd_error g = Some 0 /\ last g 0 = dur /\
-    (forall x, In x g <->
-       x = dur \/
-       (exists i, (0 <= i <= Int_part (dur / dt))%Z /\ x = IZR i * dt) \/
-       (exists t, requested_by obs dflt t /\ x = t * dur)).
+    adjP (fun a b => a + tolu <= b) (map (fun t => t / dur) g) /\
+    (forall x, In x g -> is_candidate dur dt obs dflt x /\ 0 <= x <= dur) /\
+    (forall x, is_candidate dur dt obs dflt x ->
+       exists y, In y g /\ Rabs (x / dur - y / dur) < tolu).
 Proof. exact grid_spec. Qed.
+
+(* Before merging, the sorted candidate list is exactly the candidate set: strictly increasing,
+   first 0, last the duration, x is a member iff it is the duration, a multiple of dt up to the
+   duration, or t*duration for a requested t. *)
+Theorem C21_candidates_spec : forall dur dt (obs : list (option (list R))) dflt req,
+  0 < dur -> 0 < dt ->
+  (forall t, requested_by obs dflt t -> 0 <= t <= 1) ->
+  unique_observable_times obs dflt = Ok req ->
+  let S := candidates R_arith dur dt (Int_part (dur / dt)) req in
+  StronglySorted Rlt S /\ hd_error S = Some 0 /\ last S 0 = dur /\
+  (forall x, In x S <->
+     x = dur \/
+     (exists i, (0 <= i <= Int_part (dur / dt))%Z /\ x = IZR i * dt) \/
+     (exists t, requested_by obs dflt t /\ x = t * dur)) /\
+  (forall x, is_candidate dur dt obs dflt x -> 0 <= x <= dur).
+Proof. exact candidates_spec. Qed.
 
 (* dt above the duration: the grid is {0, duration} plus the requested times. *)
 Theorem C21_grid_large_dt : forall dur dt (obs : list (option (list R))) dflt x,
@@ -47,7 +69,8 @@ Theorem C21_one_step_per_interval : forall tolb tol0 tolu mps tt (obs : list (op
 Proof. exact run_steps. Qed.
 
 (* If distinct candidate points are more than sep apart, so are consecutive grid points
-   (no spurious short step).  The premise is what binary64 does not give: see below. *)
+   (no spurious short step).  Since the F-08 fix the grid theorem above gives this
+   unconditionally with sep = tolu*duration; this is the general list fact. *)
 Theorem C21_no_short_step_under_separation : forall (sep : R) g,
   StronglySorted Rlt g ->
   (forall x y, In x g -> In y g -> x < y -> sep < y - x) ->
@@ -62,18 +85,17 @@ Theorem C21_trajectory_repetitions : forall (T : Type) (eq_dec : forall a b : T,
   fold_right (fun s acc => ((if eq_dec (fst s) x then snd s else 0) + acc)%nat) 0%nat samples.
 Proof. intros. split; [apply get_sequences_length | apply get_sequences_count]. Qed.
 
-(* REFUTED in binary64 (finding F-08, key near-duplicate-grid-points): for the valid input
-   duration 10, dt 0.1, evaluation times [0.03, 1.0] the float grid has 102 points instead of 101:
-   3*0.1/10*10 = 0.30000000000000004 and 0.03*10 = 0.3 are both kept, 5.6e-17 ns apart (relative
-   gap < 2^-52), i.e. a spurious zero-length solver step; and the run then fails in both
-   backends with ValueError "Evaluation times must be unique" (code 20) before simulating. *)
-Theorem C21_no_short_step_float_refuted :
+(* Regression of finding F-08 (fixed in 319efe0) on the faithful binary64 model: duration 10,
+   dt 0.1, evaluation times [0.03, 1.0] now give 101 grid points (0.30000000000000004 is merged
+   into 0.3), no relative gap below 1e-12, and the run of either backend flavour completes and
+   records the observable exactly at 0.03 and 1.0. *)
+Theorem C21_f08_witness_now_passes_float :
   exists g,
-    PrimFloat.ltb 0 w08_dur = true /\ PrimFloat.ltb 0 w08_dt = true /\
-    validate_times float_arith w_tolu w08_ts = Ok tt /\
-    get_target_times float_arith float_floor w08_dur w08_dt [Some w08_ts] (Some [1%float]) = Ok g /\
-    length g = 102%nat /\
-    PrimFloat.ltb (min_rel_gap w08_dur g 1) 0x1p-52 = true /\
-    (forall mps, run float_arith float_floor w_tolb w_tol0 w_tolu mps g (length g - 1)
-                     [Some w08_ts] (Some [1%float]) = Err 20%Z).
-Proof. exact grid_near_duplicates_float. Qed.
+    get_target_times float_arith float_floor w_tolu w08_dur w08_dt [Some w08_ts] (Some [1%float]) = Ok g /\
+    length g = 101%nat /\
+    PrimFloat.ltb (min_rel_gap w08_dur g 1) w_tolu = false /\
+    (forall mps, exists st,
+       run float_arith float_floor w_tolb w_tol0 w_tolu mps g (length g - 1)
+           [Some w08_ts] (Some [1%float]) = Ok st /\
+       map fst (rev (nth 0 (r_recs st) [])) = w08_ts).
+Proof. exact f08_witness_merged_float. Qed.
